@@ -403,6 +403,8 @@ impl<P: Payload> InitState<P> {
         let mut hash = [0; SALTED_NODE_ID_HASH_LEN];
         let rng = SystemRandom::new();
         rng.fill(&mut hash[0..4]).unwrap();
+        #[cfg(dswd_vpncloud_verif)]
+        verif::apply_salt_override(&mut hash[0..4]);
         hash[4..].clone_from_slice(&node_id);
         let d = digest::digest(&digest::SHA256, &hash);
         hash[4..].clone_from_slice(&d.as_ref()[..16]);
@@ -652,6 +654,84 @@ impl<P: Payload> InitState<P> {
 
     pub fn take_core(&mut self) -> Option<CryptoCore> {
         self.crypto.take()
+    }
+}
+
+#[cfg(dswd_vpncloud_verif)]
+pub mod verif {
+    //! Verification hooks (codec wrappers, state view, salt seam). Compiled only with --cfg dswd_vpncloud_verif.
+    use super::*;
+    use crate::crypto::core::verif::CoreView;
+    use std::cell::Cell;
+
+    thread_local! {
+        static SALT_OVERRIDE: Cell<Option<[u8; 4]>> = Cell::new(None);
+    }
+
+    /// While set, every handshake object created on this thread uses these 4 bytes as the random salt of its
+    /// salted node-id hash (the code treats them as opaque random; they decide the order of two hashes).
+    pub fn set_salt_override(salt: Option<[u8; 4]>) {
+        SALT_OVERRIDE.with(|s| s.set(salt))
+    }
+
+    pub(super) fn apply_salt_override(salt: &mut [u8]) {
+        if let Some(val) = SALT_OVERRIDE.with(|s| s.get()) {
+            salt.copy_from_slice(&val)
+        }
+    }
+
+    pub fn read_from(buffer: &[u8], trusted_keys: &[Ed25519PublicKey]) -> Result<(InitMsg, Ed25519PublicKey), Error> {
+        InitMsg::read_from(buffer, trusted_keys)
+    }
+
+    pub fn write_to(msg: &InitMsg, buffer: &mut [u8], key: &Ed25519KeyPair) -> Result<usize, io::Error> {
+        msg.write_to(buffer, key)
+    }
+
+    pub fn msg_stage(msg: &InitMsg) -> u8 {
+        msg.stage()
+    }
+
+    #[derive(Clone, Debug, PartialEq, Eq, Hash)]
+    pub struct InitView {
+        pub salted_node_id_hash: SaltedNodeIdHash,
+        pub next_stage: u8,
+        pub close_time: usize,
+        pub failed_retries: usize,
+        pub last_message: Option<Vec<u8>>,
+        pub ecdh_public_key: Option<Vec<u8>>,
+        pub crypto: Option<CoreView>,
+        pub selected_algorithm: Option<u8>,
+    }
+
+    pub fn algorithm_id(algo: &'static Algorithm) -> u8 {
+        if algo == &AES_128_GCM {
+            1
+        } else if algo == &AES_256_GCM {
+            2
+        } else if algo == &CHACHA20_POLY1305 {
+            3
+        } else {
+            255
+        }
+    }
+
+    impl<P: Payload> InitState<P> {
+        pub fn verif_state(&self) -> InitView {
+            InitView {
+                salted_node_id_hash: self.salted_node_id_hash,
+                next_stage: self.next_stage,
+                close_time: self.close_time,
+                failed_retries: self.failed_retries,
+                last_message: self.last_message.clone(),
+                ecdh_public_key: self
+                    .ecdh_private_key
+                    .as_ref()
+                    .map(|k| k.compute_public_key().expect("public key").as_ref().to_vec()),
+                crypto: self.crypto.as_ref().map(|c| c.verif_state()),
+                selected_algorithm: self.selected_algorithm.map(algorithm_id),
+            }
+        }
     }
 }
 
